@@ -343,7 +343,10 @@ impl C16 {
                         }
                         stats.probe_if("bgzf_async_bytes_identical_to_sync", sb == out);
                     }
-                    Err((c, m)) => panic!("harness: sync twin failed: {c}: {m}"),
+                    Err(_) => {
+                        // the sync twin itself fails for these calls: nothing to compare with
+                        stats.probe("workload_unbuildable", 1);
+                    }
                 }
                 if !sink.state.lock().unwrap().shutdown {
                     return Some(v(comp, "shutdown-not-propagated", "inner-shutdown", "shutdown() returned Ok but the inner sink was not shut down".into()));
@@ -353,7 +356,10 @@ impl C16 {
             }
             AScenario::BgzfReader { layout, ops } => {
                 let comp = "bgzf::async::io::Reader";
-                let built = c02::build_layout(layout).unwrap_or_else(|e| panic!("harness: layout: {e}"));
+                let Ok(built) = c02::build_layout(layout) else {
+                    stats.probe("workload_unbuildable", 1);
+                    return None;
+                };
                 let index = c02::make_index(&built.flat, false).expect("gzi");
                 let file = Arc::new(built.file.clone());
                 let mut st = c02::HistoryStats::default();
@@ -382,7 +388,10 @@ impl C16 {
                 }
             }
             AScenario::Read { file, variant } => {
-                let made = kinds::make(file).unwrap_or_else(|e| panic!("harness: make: {e}"));
+                let Ok(made) = kinds::make(file) else {
+                    stats.probe("workload_unbuildable", 1);
+                    return None;
+                };
                 let comp = format!("{}:async-{}", file.kind.name(), kinds::variant_name(file.kind, *variant));
                 if !faio::has_async_reader(file.kind, *variant) {
                     stats.probe("kinds_without_async_reader_skipped", 1);
@@ -413,7 +422,10 @@ impl C16 {
                 None
             }
             AScenario::Write { file } => {
-                let made = kinds::make(file).unwrap_or_else(|e| panic!("harness: make: {e}"));
+                let Ok(made) = kinds::make(file) else {
+                    stats.probe("workload_unbuildable", 1);
+                    return None;
+                };
                 let comp = format!("{}:async-writer", file.kind.name());
                 if !faio::has_async_writer(file.kind) {
                     stats.probe("kinds_without_async_writer_skipped", 1);
@@ -437,7 +449,10 @@ impl C16 {
                 let out = Arc::new(sink.data());
                 // sync twin output (fault-free Vec)
                 let mut sync_bytes = Vec::new();
-                crate::kernel::fresh_thread(|| kinds::write_to(file.kind, &made.model, &mut sync_bytes)).unwrap_or_else(|e| panic!("harness: sync write failed: {e}"));
+                if crate::kernel::fresh_thread(|| kinds::write_to(file.kind, &made.model, &mut sync_bytes)).is_err() {
+                    stats.probe("workload_unbuildable", 1);
+                    return None;
+                }
                 // decode both with the sync reader
                 let oa = kinds::read(file.kind, 0, Source::plain(out.clone()));
                 let os = kinds::read(file.kind, 0, Source::plain(Arc::new(sync_bytes.clone())));
@@ -463,7 +478,10 @@ impl C16 {
                 None
             }
             AScenario::Query { file } => {
-                let made = kinds::make(file).unwrap_or_else(|e| panic!("harness: make: {e}"));
+                let Ok(made) = kinds::make(file) else {
+                    stats.probe("workload_unbuildable", 1);
+                    return None;
+                };
                 let Some((dk, data)) = made.companion.clone() else { return None };
                 let comp = format!("{}:async-query({})", file.kind.name(), dk.name());
                 if !faio::has_async_query(file.kind, dk) {
